@@ -269,10 +269,8 @@ void NifFile::SetShapeOrder(const std::vector<std::string>& order) {
 	}
 
 	auto root = GetRootNode();
-	if (root) {
-		sortState.newIndex = GetBlockID(root);
-		SetSortIndices(sortState.newIndex, sortState);
-	}
+	if (root)
+		SetSortIndices(GetBlockID(root), sortState);
 
 	for (size_t i = 0; i < sortState.newIndices.size(); i++) {
 		uint32_t index = static_cast<uint32_t>(i);
